@@ -33,74 +33,7 @@ def r_C08bc(root):
     from sa.rules import resolver as RS
     R = RS.roles(root); fn, loop = R.fn, R.loop; fi = sem.info(fn)
     v_obj, v_attr, v_ref = R.v_obj, R.v_attr, R.v_ref
-    stores = [c for c in calls(loop) if isinstance(c.func, ast.Attribute) and c.func.attr == "insert" and isinstance(c.func.value, ast.Name)]
-    lst_stores = []
-    for c in stores:
-        d = _single_def(fi, c, c.func.value.id)
-        if d is not None and isinstance(d.value, ast.Call) and getattr(d.value.func, "id", "") == "getattr" and _names(d.value) >= {v_obj, v_attr}: lst_stores.append((c, d))
-    W = "ReferenceResolver.resolve_one_step"
-    for c, ldef in lst_stores:
-        inst += 1
-        if len(c.args) != 2 or not isinstance(c.args[0], ast.Name): raise AnalysisError("positional store with a computed index expression is outside the supported idiom: " + ast.unparse(c))
-        idxv = c.args[0].id; idef = _single_def(fi, c, idxv)
-        ok_all = True
-        def bad(construct, msg):
-            nonlocal ok_all; ok_all = False
-            out.append(Finding("C08", "C08.b", M, W, construct, msg, witness="an object with two reference lists / a list with three references and a provider that postpones one of them for one or two rounds"))
-        if idef is None or not (isinstance(idef.value, ast.Call) and callee_name(idef.value) in ("bisect", "bisect_right", "bisect_left") and len(idef.value.args) >= 2):
-            raise AnalysisError("index of the positional store is not a bisect over a position table (unsupported idiom): " + (ast.unparse(idef) if idef else idxv))
-        tab, key = idef.value.args[0], idef.value.args[1]
-        key_x = fi.expand(key, at=idef)
-        if not (isinstance(key_x, ast.Attribute) and key_x.attr == "position" and isinstance(key_x.value, ast.Name) and key_x.value.id == v_ref):
-            bad(ast.unparse(idef), "the list index is not computed from the position of the reference being stored (%s)" % ast.unparse(key_x))
-        if not isinstance(tab, ast.Name): raise AnalysisError("position table is not a local name: " + ast.unparse(tab))
-        tdef = _single_def(fi, idef, tab.id)
-        if tdef is None: raise AnalysisError("position table %s has no unique definition" % tab.id)
-        tv = tdef.value; tkey = None; store = None
-        if isinstance(tv, ast.Call) and callee_name(tv) == "setdefault" and len(tv.args) == 2: store, tkey = tv.func.value, tv.args[0]
-        elif isinstance(tv, ast.Subscript): store, tkey = tv.value, tv.slice
-        else: raise AnalysisError("position table lookup outside the supported idioms: " + ast.unparse(tdef))
-        tkey_x = fi.expand(tkey, at=tdef)
-        # (i) key covers the determinants of the list, injectively
-        for var, what in ((v_obj, "object"), (v_attr, "attribute")):
-            how = _injective_in(tkey_x, var)
-            inst += 1
-            if how is None:
-                bad(ast.unparse(tdef), "position table key %s does not depend on the %s that owns the list: different reference lists share one table and later references are inserted at the wrong index" % (ast.unparse(tkey_x), what))
-            elif var == v_obj and how not in ("id", "self"):
-                bad(ast.unparse(tdef), "position table key identifies the owning object by %s, which is not injective" % how[5:])
-            elif var == v_attr and how not in ("id", "self", "attr:name"):
-                bad(ast.unparse(tdef), "position table key identifies the attribute by %s, which is not injective" % how[5:])
-        # (ii) the table store lives across rounds: rooted at self, never re-created inside resolve_one_step
-        inst += 1
-        root_ = store
-        while isinstance(root_, ast.Attribute): root_ = root_.value
-        if not (isinstance(root_, ast.Name) and root_.id == "self" and isinstance(store, ast.Attribute)):
-            bad(ast.unparse(tdef), "position tables are kept in %s, which does not outlive one resolution round; postponed references are resolved in later rounds" % ast.unparse(store))
-        else:
-            for n in own_nodes(fn):
-                if isinstance(n, (ast.Assign, ast.AugAssign)) and any(ast.unparse(tg) == ast.unparse(store) for tg in (n.targets if isinstance(n, ast.Assign) else [n.target])):
-                    bad(ast.unparse(n), "position tables are re-created in every resolution round; references postponed to a later round lose their place")
-                if isinstance(n, ast.Call) and isinstance(n.func, ast.Attribute) and n.func.attr in ("clear", "pop", "popitem") and ast.unparse(n.func.value) == ast.unparse(store):
-                    bad(ast.unparse(n), "position tables are emptied during resolution")
-            init = find(t, "ReferenceResolver.__init__")
-            if not any(isinstance(n, ast.Assign) and any(ast.unparse(tg) == ast.unparse(store) for tg in n.targets) for n in own_nodes(init)):
-                bad(ast.unparse(store), "position table store is not initialised in ReferenceResolver.__init__")
-        # (iii) parallel update: exactly one mutation of the table: insert(idx, <same key>) on the same paths as the list store
-        inst += 1
-        muts = [m for m in calls(loop) if isinstance(m.func, ast.Attribute) and isinstance(m.func.value, ast.Name) and m.func.value.id == tab.id and m.func.attr in ("insert", "append", "extend", "sort", "pop", "remove", "reverse", "clear")]
-        good = [m for m in muts if m.func.attr == "insert" and len(m.args) == 2 and isinstance(m.args[0], ast.Name) and m.args[0].id == idxv and ast.unparse(fi.expand(m.args[1], at=m)) == ast.unparse(key_x)]
-        for m in muts:
-            if m not in good: bad(ast.unparse(m), "the position table is not updated in parallel with the list (expected %s.insert(%s, %s)): later indices are computed from a table that no longer mirrors the list" % (tab.id, idxv, ast.unparse(key)))
-        if not good: bad(ast.unparse(c), "the position of a stored reference is never recorded in the position table")
-        else:
-            ga = sorted((ast.unparse(g), p) for g, p in fi.guards(good[0])); gb = sorted((ast.unparse(g), p) for g, p in fi.guards(c))
-            if ga != gb: bad(ast.unparse(good[0]), "position table and list are updated under different conditions")
-            if not (fi.node_of(idef).id < fi.node_of(good[0]).id): bad(ast.unparse(good[0]), "the index is computed after the table was updated")
-        ob("C08", "C08.b", M, W, ast.unparse(c), ok_all)
-    if not lst_stores:
-        # append-style stores are handled (and reported) by C08.a; nothing to check here
-        pass
+    # C08.b (position table) is subsumed by the schedule simulation C08.d (sa/rules/cres.py)
     # ---- C08.c element positions of queued references
     pn = find_i(root, M, "parse_tree_to_objgraph.process_node")
     ctor = [c for c in calls(pn, own=True) if callee_name(c) == "ObjCrossRef"]
